@@ -296,7 +296,7 @@ static void float_texts_sweep(int shard, int nshards) {
       "infinity", "nan", "NaN", "INF", "0x10", "0x1p4", "1_000", "1e5e5", "12abc", "١٢"};
   for (size_t i = 0; i < texts.size(); i++) {
     if ((int)(i % nshards) != shard) continue;
-    vector<string> tokens = {"--f=" + texts[i]};
+    vector<string> tokens = {"--f=" + texts[i], "--n=77"};
     tr.emit("{\"e\":\"Reset\"}");
     tr.histories++;
     Arguments a(tokens);
@@ -306,7 +306,12 @@ static void float_texts_sweep(int shard, int nshards) {
     j.str("e", "new").raw("tokens", jlist(tokens)).raw("pos", jlist(pos)).raw("named", dump_named(a, false));
     tr.emit(j);
     for (int hasdef = 0; hasdef < 2; hasdef++)
-      for (int dbl = 0; dbl < 2; dbl++) float_getter(a, true, "f", 0, hasdef, dbl);
+      for (int dbl = 0; dbl < 2; dbl++) {
+        float_getter(a, true, "f", 0, hasdef, dbl);
+        // an integer getter right after a float getter: nothing the float conversion left behind (errno) may leak into it
+        if (dbl) int_getter<int32_t>(a, true, "n", 0, 0, false, -70000);
+        else int_getter<uint8_t>(a, true, "n", 0, 0, false, 200);
+      }
     float_getter(a, true, "absent", 0, true, true);
     float_getter(a, true, "absent", 0, false, true);
   }
